@@ -5,12 +5,12 @@ use educe::Educe;
 use core::cmp::Ordering;
 #[derive(Educe)]
 #[educe(PartialEq, Eq, Ord)]
-pub enum T { None, Zed, V1 {  }, C { x: Option<u8>, c: &'static u8 } }
+pub enum T { A }
 impl PartialOrd for T { fn partial_cmp(&self, o: &Self) -> Option<Ordering> { Some(::core::cmp::Ord::cmp(self, o)) } }
-pub fn values() -> Vec<T> { vec![T::None, T::Zed, T::V1 {  }, T::C { x: None, c: &3u8 }, T::C { x: None, c: &200u8 }, T::C { x: Some(0), c: &3u8 }, T::C { x: Some(0), c: &200u8 }, T::C { x: Some(255), c: &3u8 }, T::C { x: Some(255), c: &200u8 }] }
-pub fn show(x: &T) -> String { #[allow(unused_variables)] match x { T::None => format!("None()"), T::Zed => format!("Zed()"), T::V1 {  } => format!("V1()"), T::C { x: p0, c: p1 } => format!("C({},{})", sv(p0), sv(p1)) } }
-pub fn o_disc(x: &T) -> i128 { match x { T::None => 0, T::Zed => 1, T::V1 {  } => 2, T::C { x: _, c: _ } => 3 } }
-pub fn o_cmp(a: &T, b: &T) -> Ordering { match (a, b) { (T::None, T::None) => {  Ordering::Equal }, (T::Zed, T::Zed) => {  Ordering::Equal }, (T::V1 {  }, T::V1 {  }) => {  Ordering::Equal }, (T::C { x: a0, c: a1 }, T::C { x: b0, c: b1 }) => { let c = ::core::cmp::Ord::cmp(a0, b0); if c != Ordering::Equal { return c; } let c = ::core::cmp::Ord::cmp(a1, b1); if c != Ordering::Equal { return c; } Ordering::Equal }, _ => o_disc(a).cmp(&o_disc(b)) } }
+pub fn values() -> Vec<T> { vec![T::A] }
+pub fn show(x: &T) -> String { #[allow(unused_variables)] match x { T::A => format!("A()") } }
+pub fn o_disc(x: &T) -> i128 { match x { T::A => 0 } }
+pub fn o_cmp(a: &T, b: &T) -> Ordering { match (a, b) { (T::A, T::A) => {  Ordering::Equal } } }
 #[repr(C)] pub struct Wrap { pub pre: u8, pub x: T, pub post: [u8; 9] }
 pub fn wrap(i: usize, n: u8) -> Wrap { Wrap { pre: n, x: values().swap_remove(i), post: [n; 9] } }
 pub fn run(out: &mut Out) { let vs = values(); for (i, a) in vs.iter().enumerate() { for (j, b) in vs.iter().enumerate() { let e = o_cmp(a, b); let g = ::core::cmp::Ord::cmp(a, b); out.check(g == e, "ordlayout_6", "cmp", || format!("cmp({}, {}) = {:?} expected {:?}", show(a), show(b), g, e)); for n in [0u8, 1, 0x7f, 0x80, 0xff] { let wa = wrap(i, n); let wb = wrap(j, !n); let g = ::core::cmp::Ord::cmp(&wa.x, &wb.x); let e = o_cmp(a, b); out.check(g == e, "ordlayout_6", "cmp_neighbours", || format!("cmp({}, {}) with neighbour bytes {} = {:?} expected {:?}", show(a), show(b), n, g, e)); } } } }
